@@ -1220,3 +1220,145 @@ var ruleLineStart = &Rule{
 		return obs
 	},
 }
+
+// ---------------------------------------------------------------------------------------------
+// S8: a local is not visible inside its own initialiser, whatever the initialiser's kind
+
+var ruleScopeS8 = &Rule{
+	Name:    "SCOPE/S8-own-initialiser",
+	NeedSSA: true,
+	Text:    "VarInfo.IsCorrectPosition — the visibility test behind every local lookup — answers true only after the position was tested for containment in the variable's initialising expression (a call of Location.IsContainLoc on a location derived from ReferExp), for EVERY kind of initialiser: a branch of the type switch over ReferExp (in particular its default branch) that returns true without such a test makes `local x = x + 1`, `local x = -x`, `local x = {x}` resolve the right-hand x to the new local",
+	Run: func(c *Ctx) []Ob {
+		f := c.SSAFunc(commonPkg, "VarInfo", "IsCorrectPosition")
+		if f == nil {
+			return []Ob{{Key: "SCOPE/S8:slots", Verdict: UNDECIDED, Note: "slot unresolved: VarInfo.IsCorrectPosition"}}
+		}
+		isContain := func(i ssa.Instruction) bool {
+			call, ok := i.(*ssa.Call)
+			return ok && call.Call.StaticCallee() != nil && call.Call.StaticCallee().Name() == "IsContainLoc"
+		}
+		var obs []Ob
+		n := 0
+		for _, b := range f.Blocks {
+			ret, ok := b.Instrs[len(b.Instrs)-1].(*ssa.Return)
+			if !ok || len(ret.Results) != 1 {
+				continue
+			}
+			k, ok := ret.Results[0].(*ssa.Const)
+			if !ok || k.Value == nil || k.Value.Kind() != constant.Bool || !constant.BoolVal(k.Value) {
+				continue
+			}
+			n++
+			// which switch branch: name it by the asserted type that dominates the block, else "default"
+			branch := "default"
+			for d := b; d != nil; d = d.Idom() {
+				for _, ins := range d.Instrs {
+					if ta, ok := ins.(*ssa.TypeAssert); ok && ta.CommaOk {
+						for _, s := range okTrueSuccs(ta) {
+							if s == b || s.Dominates(b) {
+								branch = namedName(ta.AssertedType)
+							}
+						}
+					}
+				}
+			}
+			key := "SCOPE/S8:IsCorrectPosition:" + branch
+			target := ret
+			if bad := mustPrecede(f, isContain, func(i ssa.Instruction) bool { return i == ssa.Instruction(target) }); len(bad) > 0 {
+				obs = append(obs, Ob{Key: key, Site: c.Pos(ret.Pos()), Verdict: VIOLATION,
+					Note: "IsCorrectPosition answers true on the `" + branch + "` branch without testing whether the position lies inside the variable's own initialiser"})
+			} else {
+				obs = append(obs, Ob{Key: key, Site: c.Pos(ret.Pos()), Verdict: OK})
+			}
+		}
+		obs = append(obs, floor("SCOPE/S8-own-initialiser", "returns of true in IsCorrectPosition", n, 3))
+		return obs
+	},
+}
+
+// ---------------------------------------------------------------------------------------------
+// REN/R3: rename must be able to tell alias occurrences (self) from occurrences spelled with the old name
+
+var ruleRenR3 = &Rule{
+	Name:    "REN/R3-alias-occurrences",
+	NeedSSA: true,
+	Text:    "the reference traversal reports, as occurrences of a table variable, the `self` tokens inside its colon methods (self is converted to the variable before matching). Rename turns every occurrence into an edit, so one of two mechanisms must exist: (a) the rename mode reaches the traversal — the mode parameter of FindReferences flows into the object handed to the traversal (ReferenceFileResult / ReferenceParam), so that converted occurrences can be left out — or (b) TextDocumentRename compares the text under each range with the old name before it creates the edit (a string comparison dominating the TextEdit). With neither, `self` tokens are overwritten with the new name",
+	Run: func(c *Ctx) []Ob {
+		fr := c.SSAFunc(checkPkg, "AllProject", "FindReferences")
+		rn := c.SSAFunc(langserverPkg, "LspServer", "TextDocumentRename")
+		if fr == nil || rn == nil {
+			return []Ob{{Key: "REN/R3:slots", Verdict: UNDECIDED, Note: "slot unresolved: FindReferences / TextDocumentRename"}}
+		}
+		// (a) mode parameter used other than in comparisons
+		var mode *ssa.Parameter
+		for _, p := range fr.Params {
+			if namedName(p.Type()) == "CheckReferenceSrc" {
+				mode = p
+			}
+		}
+		flows := false
+		if mode != nil {
+			if refs := mode.Referrers(); refs != nil {
+				for _, r := range *refs {
+					switch x := r.(type) {
+					case *ssa.BinOp, *ssa.DebugRef:
+					case *ssa.Store:
+						// spilled parameter: look at the loads
+						if al, ok := x.Addr.(*ssa.Alloc); ok {
+							if ar := al.Referrers(); ar != nil {
+								for _, u := range *ar {
+									if ld, ok := u.(*ssa.UnOp); ok {
+										if lr := ld.Referrers(); lr != nil {
+											for _, uu := range *lr {
+												if _, isCmp := uu.(*ssa.BinOp); !isCmp {
+													flows = true
+												}
+											}
+										}
+									}
+								}
+							}
+						} else {
+							flows = true
+						}
+					default:
+						flows = true
+					}
+				}
+			}
+		}
+		// (b) a string comparison dominating the TextEdit construction in the rename handler
+		filtered := false
+		for _, b := range rn.Blocks {
+			for _, ins := range b.Instrs {
+				st, ok := ins.(*ssa.Store)
+				if !ok {
+					continue
+				}
+				fa, ok := st.Addr.(*ssa.FieldAddr)
+				if !ok || namedName(fa.X.Type()) != "TextEdit" {
+					continue
+				}
+				for d := b; d != nil; d = d.Idom() {
+					id := d.Idom()
+					if id == nil {
+						break
+					}
+					if iff, ok := id.Instrs[len(id.Instrs)-1].(*ssa.If); ok {
+						if bo, ok := iff.Cond.(*ssa.BinOp); ok && (bo.Op == token.EQL || bo.Op == token.NEQ) {
+							if bt, ok := bo.X.Type().Underlying().(*types.Basic); ok && bt.Kind() == types.String {
+								filtered = true
+							}
+						}
+					}
+				}
+			}
+		}
+		key := "REN/R3:rename-alias-occurrences"
+		if flows || filtered {
+			return []Ob{{Key: key, Site: c.Pos(rn.Pos()), Verdict: OK}}
+		}
+		return []Ob{{Key: key, Site: c.Pos(rn.Pos()), Verdict: VIOLATION,
+			Note: "neither does the rename mode reach the reference traversal nor does TextDocumentRename compare the text under a range with the old name: `self` tokens that stand for the renamed table are overwritten with the new name"}}
+	},
+}
